@@ -29,6 +29,12 @@ type LoopSpec struct {
 	Decreases  []Clause
 }
 
+type GhostSet struct {
+	Name string
+	Expr Expr
+	Line int
+}
+
 type Transfer struct {
 	Ghost  Expr // ghost lvalue, e.g. debt(wg)
 	Amount Expr
@@ -49,6 +55,8 @@ type FuncContract struct {
 	Transfers []Transfer
 	Fresh     []string // results that are freshly allocated (or nil)
 	Asserts   map[string][]Clause // call-site assertions keyed by "call.name#k"
+	GhostVars []QVar              // ghost locals (name, sort); visible in ensures as their final values
+	GhostSets map[string][]GhostSet // site -> assignments executed just before the site
 	Captures  []Clause // closure: facts about captured values, checked at creation, assumed at entry
 	Iterates  string   // parameter name of a callback invoked an arbitrary number of times
 	IterAssume []Clause // facts about the values the callback is invoked with (arg0, arg1, ...)
@@ -403,6 +411,12 @@ func (sp *Specs) loadContractFile(path, pkg string, assumed bool) error {
 			} else {
 				ls.Decreases = append(ls.Decreases, c)
 			}
+		case "ghostvar":
+			f := strings.Fields(rest)
+			if len(f) != 2 || curFn == nil {
+				return fmt.Errorf("%s:%d: ghostvar name Sort", path, l.line)
+			}
+			curFn.GhostVars = append(curFn.GhostVars, QVar{f[0], f[1]})
 		case "captures":
 			c, err := mkClause(wtag, rest, l.line)
 			if err != nil {
@@ -430,6 +444,22 @@ func (sp *Specs) loadContractFile(path, pkg string, assumed bool) error {
 			parts := strings.SplitN(rest, " ", 2)
 			if len(parts) != 2 {
 				return fmt.Errorf("%s:%d: bad at clause", path, l.line)
+			}
+			if gs := strings.TrimSpace(parts[1]); strings.HasPrefix(gs, "ghostset ") {
+				eq := strings.Index(gs, "=")
+				if eq < 0 {
+					return fmt.Errorf("%s:%d: at <site> ghostset name = expr", path, l.line)
+				}
+				name := strings.TrimSpace(gs[len("ghostset "):eq])
+				e, err := ParseExpr(strings.TrimSpace(gs[eq+1:]))
+				if err != nil {
+					return fmt.Errorf("%s:%d: %v", path, l.line, err)
+				}
+				if curFn.GhostSets == nil {
+					curFn.GhostSets = map[string][]GhostSet{}
+				}
+				curFn.GhostSets[parts[0]] = append(curFn.GhostSets[parts[0]], GhostSet{name, e, l.line})
+				continue
 			}
 			m := clauseHead.FindStringSubmatch(strings.TrimSpace(parts[1]))
 			if m == nil || m[1] != "assert" {
@@ -500,6 +530,7 @@ func (sp *Specs) loadContractFile(path, pkg string, assumed bool) error {
 			if err != nil {
 				return err
 			}
+			c.Label = curPkg // package context for name resolution
 			sp.Axioms = append(sp.Axioms, c)
 		case "globalinv":
 			c, err := mkClause(wtag, rest, l.line)
